@@ -37,6 +37,16 @@ class UnitList:
             'source': source,
         } #,'prefixes':['k','M','G']}
         
+    def extend(self, units:dict):
+        """ Add units selected from another unit list (import of remote units)
+
+        :param dict units: Unit definitions returned by UnitList.query
+        """
+        for name, unit in units.items():
+            if name in self.units:
+                raise Exception("Reference unit alread exists:", name)
+            self.units[name] = dict(unit)
+        
     def query(self, query:str):
         """ Select units according to a query
 
@@ -45,6 +55,8 @@ class UnitList:
         if query==Sign.WILDCARD:   # return all units
             return self.units
         else:                     # return particular unit
+            if query not in self.units and f"[{query}]" in self.units:
+                query = f"[{query}]"   # units are requested by their name
             if query not in self.units:
                 raise Exception("Requested unit does not exists:", query)
             return {query: self.units[query]}
